@@ -369,3 +369,46 @@ def frame_analysis(A, an):
         ip.on_assign.remove(on_assign)
     gates = A.observations("gate")
     return outs, gates
+
+
+def check_final_reset(ctx, A, F, an, rid):
+    """finalize() and reset() report the same pending-byte count from every state: finalize returns
+    Some(DiscardedBytes(n)) with n = the consumed-byte counter exactly when something is pending, None otherwise;
+    reset returns that counter (0 after a delivered frame).  Shared by C10, C11, C15 and C17: the reader front-ends
+    report reset()'s value at end of input, the iterator front-ends finalize()'s."""
+    ip = A.ip
+    where = lambda b: (b["span"]["file"], b["span"]["line"], b["def"])
+    def lossy(st, lin):
+        for s in lin.syms():
+            d = ip.tab.defn(s)
+            if d and d[0] in ("trunc", "wrap", "shl_trunc"):
+                return True
+        return False
+    for c in cases(A, an.finalize):
+        raw0 = c["obj0"].elems[an.i_raw].lin
+        for s2, var, pay in split_enum(ip, c["st"], c["ret"], "finalize"):
+            ctx.count(rid)
+            if var == 0:
+                ok = c["key"] == an.v_done or s2.prove_eq0(raw0)
+                msg = "finalize returns None although bytes may be pending (counter %s)" % s2.describe(raw0)
+            else:
+                e = pay[0]
+                ev = s2.const_of(e.disc)
+                n = e.pay.get(ev, ())
+                ok = ev == an.err_variants.get("DiscardedBytes") and len(n) == 1 and s2.prove_eq0(n[0].lin - raw0) \
+                    and not lossy(s2, n[0].lin) and c["key"] != an.v_done and s2.prove_ge0(raw0 - 1)
+                msg = "finalize must report exactly the pending counter, and only when something is pending"
+            ctx.oblig(ok)
+            if not ok:
+                ctx.violation(rid, "finalize|partition=%s|%s" % (c["key"], "None" if var == 0 else "Some"), where(an.finalize),
+                              "finalize() from state #%s: %s" % (c["key"], msg))
+    for c in cases(A, an.reset):
+        ctx.count(rid)
+        raw0 = c["obj0"].elems[an.i_raw].lin
+        p0 = Lin.const(0) if c["key"] == an.v_done else raw0
+        ok = isinstance(c["ret"], VInt) and c["st"].prove_eq0(c["ret"].lin - p0) and not lossy(c["st"], c["ret"].lin)
+        ctx.oblig(ok)
+        if not ok:
+            ctx.violation(rid, "reset|partition=%s" % (c["key"],), where(an.reset),
+                          "reset() from state #%s must return exactly the pending counter (what finalize would report), got %s"
+                          % (c["key"], c["st"].describe(c["ret"].lin) if isinstance(c["ret"], VInt) else c["ret"]))
